@@ -35,6 +35,26 @@ func (m MatchInt) Match(v Value) bool {
 	return false
 }
 
+// MatchIntIn matches integers in the range [lo, hi].
+func MatchIntIn(lo, hi int, f func(i int)) Matcher {
+	return matchIntIn{lo: lo, hi: hi, f: f}
+}
+
+type matchIntIn struct {
+	lo, hi int
+	f      func(i int)
+}
+
+func (m matchIntIn) Match(v Value) bool {
+	if n, ok := v.(Number); ok {
+		if i, is := n.Int(); is && m.lo <= i && i <= m.hi {
+			m.f(i)
+			return true
+		}
+	}
+	return false
+}
+
 type TupleMatcher struct {
 	attrs map[string]Matcher
 	rest  Matcher
